@@ -141,6 +141,9 @@ impl Property for C14 {
     fn run(&self, src: &mut Src, rep: &mut Report) -> Verdict {
         let allow_mixed = src.chance(40);
         let s = gen_scenario(src, allow_mixed);
+        if crate::scenario::collision_pair_blocks_registration(&s) {
+            return Verdict::Discard("two metric names with equal 64-bit FNV-1a hash and equal constant-label values: the second registration is refused (known finding, see C15)");
+        }
         if !allow_mixed {
             rep.excluded_known = true;
         }
